@@ -100,7 +100,7 @@ def race_jobs(ctx, reps):
 
 def check_C07(ctx):
     th = ctx.thorough()
-    jobs = e1_jobs(ctx, "C07", E1_SCENARIOS_QUICK + ["S9-findmissing-vs-puts"], 3 if th else 2, 4 if th else 1, 1500 if th else 100)
+    jobs = e1_jobs(ctx, "C07", E1_SCENARIOS_QUICK + ["S9-findmissing-vs-puts"], 3 if th else 2, 4 if th else 1, 1500 if th else 300)
     jobs += race_jobs(ctx, 200 if th else 25)
     return dict(level="model_checking", jobs=jobs,
                 rule="stateless DFS over all schedules (preemption-bounded) of each scenario on the real disk cache under the controlled scheduler; an evaluation is one complete execution; distinct = distinct observed operation-result histories per scenario",
@@ -123,27 +123,32 @@ E2_ASSUME = [
 
 def check_C03(ctx):
     th = ctx.thorough()
-    jobs = e2lru_jobs(ctx, "C03", 6 if th else 4, 1500 if th else 100)
-    jobs += e2cache_jobs(ctx, "C03", 4 if th else 3, 1500 if th else 100, 8 if th else 2)
-    jobs += e1_jobs(ctx, "C03", ["S3-evict-vs-read", "S5-corrupt-get-put", "S7-three-puts-tight", "S11-commit-refused-by-reservation"], 3 if th else 2, 2 if th else 1, 1200 if th else 100, oracle="C03@")
+    jobs = e2lru_jobs(ctx, "C03", 6 if th else 4, 1500 if th else 300)
+    jobs += e2cache_jobs(ctx, "C03", 4 if th else 3, 1500 if th else 300, 8 if th else 2)
+    jobs += e1_jobs(ctx, "C03", ["S3-evict-vs-read", "S5-corrupt-get-put", "S7-three-puts-tight", "S11-commit-refused-by-reservation"], 3 if th else 2, 2 if th else 1, 1200 if th else 300, oracle="C03@")
     return dict(level="model_checking", jobs=jobs,
-                rule="explicit-state BFS over operation sequences on the real SizedLRU and on a real disk cache (accounting equation, reserved==0, Stats()==index on every transition) plus all preemption-bounded schedules of three concurrent scenarios (equation at every scheduling point); distinct = distinct canonical states / distinct observed histories",
+                rule="explicit-state BFS over operation sequences on the real SizedLRU and on a real disk cache (accounting equation, reserved==0, Stats()==index on every transition) plus all preemption-bounded schedules of three concurrent scenarios (equation at every scheduling point); distinct = distinct canonical states / distinct observed histories; environment deviation in the alphabet: uploads whose file cannot be created (os.OpenFile fails, injected through the os shim)",
                 assumptions=E2_ASSUME + E1_ASSUME)
 
 
 def check_C04(ctx):
     th = ctx.thorough()
-    jobs = e2cache_jobs(ctx, "C04", 4 if th else 3, 1500 if th else 100, 8 if th else 2)
-    jobs += e1_jobs(ctx, "C04", ["S2-ac-overwrite", "S3-evict-vs-read", "S6-corrupt-get-evict-reput", "S7-three-puts-tight", "S11-commit-refused-by-reservation", "S12-get-vs-two-overwrites"], 3 if th else 2, 2 if th else 1, 1200 if th else 100, oracle="C04@")
+    jobs = e2cache_jobs(ctx, "C04", 4 if th else 3, 1500 if th else 300, 8 if th else 2)
+    jobs += e1_jobs(ctx, "C04", ["S2-ac-overwrite", "S3-evict-vs-read", "S6-corrupt-get-evict-reput", "S7-three-puts-tight", "S11-commit-refused-by-reservation", "S12-get-vs-two-overwrites"], 3 if th else 2, 2 if th else 1, 1200 if th else 300, oracle="C04@")
+    b = ctx.bin(DISK)
+    for sh in range(8):
+        jobs.append(Job(b, "TestVfC04Restart", name="E2-restart#%d" % sh, timeout=(1500 if th else 300) + 60, env={
+            "VERIF_PARAM_PROPERTY": "C04", "VERIF_PARAM_DEPTH": "3" if th else "2", "VERIF_PARAM_CONFIG": "shard%d" % sh,
+            "VERIF_SHARD": "%d/8" % sh, "VERIF_BUDGET_S": str(1500 if th else 300), "GOMAXPROCS": "2"}))
     return dict(level="model_checking", jobs=jobs,
-                rule="explicit-state BFS over operation sequences (incl. uploads failing by hash, short reader, reader error, trailing byte, oversize, and faulty backend fetches) on a real disk cache: directory listing == index after every transition once deletions drained; plus the same at quiescence of every explored schedule of four concurrent scenarios",
+                rule="from non-initial states: four earlier lives of the directory written under either storage mode, restarted under either storage mode, then BFS (depth 2 quick / 3 thorough) over the same alphabet with directory==index, the accounting equation and reserved==0 after every transition; explicit-state BFS over operation sequences (incl. uploads failing by hash, short reader, reader error, trailing byte, oversize, and faulty backend fetches) on a real disk cache: directory listing == index after every transition once deletions drained; plus the same at quiescence of every explored schedule of four concurrent scenarios",
                 assumptions=E2_ASSUME + E1_ASSUME)
 
 
 def check_C05(ctx):
     th = ctx.thorough()
-    jobs = e2lru_jobs(ctx, "C05", 6 if th else 4, 1500 if th else 100, hard_extras=(-1,))
-    jobs += e2cache_jobs(ctx, "C05", 4 if th else 3, 1500 if th else 100, 8 if th else 2, maxblocks=(4, 3) if th else (4,))
+    jobs = e2lru_jobs(ctx, "C05", 6 if th else 4, 1500 if th else 300, hard_extras=(-1,))
+    jobs += e2cache_jobs(ctx, "C05", 4 if th else 3, 1500 if th else 300, 8 if th else 2, maxblocks=(4, 3) if th else (4,))
     return dict(level="model_checking", jobs=jobs,
                 rule="explicit-state BFS over sequential histories on the real SizedLRU and a real disk cache against a reference recency model: victims are a least-recently-used tail, not more than needed, none when it fits, accepted upload present, oversize rejected without eviction, every kind of hit refreshes recency",
                 assumptions=E2_ASSUME)
@@ -152,8 +157,10 @@ def check_C05(ctx):
 def check_C01(ctx):
     th = ctx.thorough()
     jobs = grid_jobs(ctx, "TestC01", CONFIGS, 13 if th else 4, 2400 if th else 200)
+    for cfg in CONFIGS:
+        jobs.append(Job(ctx.bin(GRID), "TestC01BatchLists", name="C01:batchlists/" + cfg, timeout=2400, env={"VERIF_PARAM_CONFIG": cfg, "GOMAXPROCS": "4"}))
     return dict(level="exploration", jobs=jobs,
-                rule="full product storage mode x zstd implementation x 13 write paths x sizes on block/chunk edges x content kind x corruption kind (data, declared size, declared hash, framing, compressor, abort), each cell with fresh digests through the real HTTP/gRPC handlers; after a complete zstd frame 1-9 stray zero bytes or a further frame cut at 1-9 bytes; non-trivial = distinct (path, corruption, size, content) cells that were accepted or rejected with the post-conditions checked",
+                rule="full product storage mode x zstd implementation x 13 write paths x sizes on block/chunk edges x content kind x corruption kind (data, declared size, declared hash, framing, compressor, abort), each cell with fresh digests through the real HTTP/gRPC handlers; after a complete zstd frame 1-9 stray zero bytes or a further frame cut at 1-9 bytes; the wrong-declared-size cells repeated from the non-initial state in which the true blob (same hash, true size) is already present; multi-item BatchUpdateBlobs: every sequence up to length 3 (4 thorough) over {good, flipped, size+1, truncated, previous good again, previous good digest with flipped data}, identity and zstd transport: each item answered on its own merits; non-trivial = distinct (path, corruption, size, content) cells that were accepted or rejected with the post-conditions checked",
                 assumptions=["in-process servers (httptest recorder / bufconn), the same handlers main() wires up",
                              "blob contents are deterministic pseudo-random or mostly-zero bytes selected by VERIF_SEED; the enumerated grid does not depend on the seed",
                              "FetchBlob origins are loopback httptest servers"])
@@ -171,8 +178,10 @@ def check_C02(ctx):
     for r in CONFIGS:
         jobs.append(Job(b, "TestC02Fmt2", name="C02fmt2:%s" % r, timeout=budget + 120, env={"VERIF_PARAM_READER": r, "GOMAXPROCS": "4"}))
     jobs.append(Job(b, "TestC02Empty", name="C02empty", timeout=300))
+    for cfg in CONFIGS:
+        jobs.append(Job(b, "TestC02BatchLists", name="C02:batchlists/" + cfg, timeout=2400, env={"VERIF_PARAM_CONFIG": cfg, "GOMAXPROCS": "4"}))
     return dict(level="exploration", jobs=jobs,
-                rule="(i) full product writer (mode,impl) x reader (mode,impl, restarted) x blob size on 4 KiB / k MiB edges x content kind x read path x offset class x read_limit class; (ii) files laid out by the independent format writer with 4/8 KiB chunks: every offset 0..n on both ByteStream paths; (iii) the empty blob on every path against an empty cache; non-trivial = distinct successful reads whose bytes were compared",
+                rule="(i) full product writer (mode,impl) x reader (mode,impl, restarted) x blob size on 4 KiB / k MiB edges x content kind x read path x offset class x read_limit class; (ii) files laid out by the independent format writer with 4/8 KiB chunks: every offset 0..n on both ByteStream paths; (iii) the empty blob on every path against an empty cache; multi-digest BatchReadBlobs: every sequence up to length 3 (4 thorough) over {present, second present (1 MiB+3), absent, empty blob, present hash with size+1, previous again}: every response right for the digest it names, every digest answered as often as asked; non-trivial = distinct successful reads whose bytes were compared",
                 assumptions=["zstd responses are decoded with klauspost/compress and libzstd; both must agree",
                              "in-process servers (httptest recorder / bufconn)",
                              "contents: pseudo-random, zeros, repetitive text; sizes are boundary-chosen"])
@@ -217,7 +226,7 @@ def check_C06(ctx):
     if unfixed["errors"] == 0:
         raise V.Broken("Spin finds no violation in the unrepaired model variant: the model cannot express the defect")
     return dict(level="exploration", jobs=jobs, extra_cov=extra,
-                rule="every ActionResult shape of a bounded grammar (0-2 output files each digest-only/inline/empty-blob; output directory with Tree variants incl. children and a nil digest; stdout/stderr digest nil/set/empty) x every assignment of {present, absent, stored with another size} (or {present, absent, backend only} with a backend) to its <=5 (7 thorough) referenced blobs, x gRPC GetActionResult, HTTP GET and HEAD; 25 output files with each single one absent (across the batch of 20); recency after a hit; aliasing: every ordered pair of reference slots naming the same stored blob (hit), the same hash with size+1 / size-1 in either order (miss), the same absent digest (miss); non-trivial = distinct (shape, assignment) cells",
+                rule="every ActionResult shape of a bounded grammar (0-2 output files each digest-only/inline/empty-blob; output directory with Tree variants incl. children and a nil digest; stdout/stderr digest nil/set/empty) x every assignment of {present, absent, stored with another size} (or {present, absent, backend only} with a backend) to its <=5 (7 thorough) referenced blobs, x gRPC GetActionResult, HTTP GET and HEAD; 25 output files with each single one absent (across the batch of 20); recency after a hit; aliasing: every ordered pair of reference slots naming the same stored blob (hit), the same hash with size+1 / size-1 in either order (miss), the same absent digest (miss); with a backend the alphabet has a fourth class X = held by the backend only and larger than max_proxy_blob_size (not obtainable: miss); non-trivial = distinct (shape, assignment) cells",
                 assumptions=["AC entries are stored directly through the disk layer (UpdateActionResult does not check dependencies either)",
                              "the backend is a scriptable cache.Proxy; the fail-fast join with a backend is additionally model-checked (E5) and its trails replayed"])
 
@@ -229,10 +238,10 @@ def check_C10(ctx):
     for mode in ("zstd", "uncompressed"):
         jobs.append(Job(g, "TestC10", name="C10:lists/" + mode, timeout=900, env={"VERIF_PARAM_MODE": mode}))
         jobs.append(Job(g, "TestC10Backend", name="C10:backend/" + mode, timeout=900, env={"VERIF_PARAM_MODE": mode}))
-    jobs += e1_jobs(ctx, "C10", ["S9-findmissing-vs-puts"], 3 if th else 2, 4 if th else 2, 1200 if th else 120, oracle="C10")
-    jobs += e2cache_jobs(ctx, "C10", 4 if th else 3, 1200 if th else 100, 2, proxies=("0", "1"))
+    jobs += e1_jobs(ctx, "C10", ["S9-findmissing-vs-puts"], 3 if th else 2, 4 if th else 2, 1200 if th else 300, oracle="C10")
+    jobs += e2cache_jobs(ctx, "C10", 4 if th else 3, 1200 if th else 300, 2, proxies=("0", "1"))
     return dict(level="exploration", jobs=jobs,
-                rule="request lists of every length 0..45 with a single missing / single present / size-mismatched / empty digest at every index, all 2^8 (2^10 thorough) present/absent patterns in windows straddling the internal batch boundaries at 20 and 40, duplicates adjacent and 21 apart; with a backend every assignment of {local, backend only, absent, backend over max_proxy_blob_size, backend with another size}^4 (^5) at the list head and across the boundary; all <=2/3-preemption schedules of FindMissing over 25 digests against two concurrent uploads; FindMissing inside BFS operation sequences; non-trivial = distinct request shapes answered exactly",
+                rule="request lists of every length 0..45 with a single missing / single present / size-mismatched / empty digest at every index, all 2^8 (2^10 thorough) present/absent patterns in windows straddling the internal batch boundaries at 20 and 40, duplicates adjacent and 21 apart; with a backend every assignment of {local, backend only, absent, backend over max_proxy_blob_size, backend with another size}^4 (^5) at the list head and across the boundary; all <=2/3-preemption schedules of FindMissing over 25 digests against two concurrent uploads; FindMissing inside BFS operation sequences; lists naming one hash with two of {stored size, size+1, size-1} in every ordered pair at every position with gaps 1/2/19/20/21, also where the right size is backend-only; non-trivial = distinct request shapes answered exactly",
                 assumptions=["through the real gRPC handler over bufconn; backend = scriptable cache.Proxy answering synchronously",
                              "the fail-fast variant of the join (used by action-cache validation) is covered under C06"] + E1_ASSUME)
 
@@ -251,7 +260,7 @@ def check_C11(ctx):
 def check_C12(ctx):
     th = ctx.thorough()
     b = ctx.bin(DISK)
-    budget = 2400 if th else 150
+    budget = 2400 if th else 300
     shards = 8 if th else 4
     jobs = []
     for mode in ("zstd", "uncompressed"):
@@ -264,7 +273,7 @@ def check_C12(ctx):
         for mode in ("zstd", "uncompressed"):
             jobs.append(Job(g, "TestC12Chain", name="C12chain:%s/%s" % (via, mode), timeout=600, env={"VERIF_PARAM_VIA": via, "VERIF_PARAM_MODE": mode}))
     return dict(level="fault_enumeration", jobs=jobs,
-                rule="seam level: kind {CAS,AC,RAW} x storage mode x size known/unknown x plain/zstd read x backend deviation {none, error, not found, nil reader, size metadata +1/-1/-1/0/over max_proxy_blob_size, one-byte reads, cancelled context, stream error at EVERY byte offset, clean EOF at EVERY byte offset}; 1 deviation quick, pairs (second read deviates too) thorough; then a local-only read with the backend emptied (poisoning) and the quiescence invariants; plus explicit-state BFS over operation sequences with a backend (write-through exactly once, decodable; read-through; faults mixed into sequences); non-trivial = distinct fault cells completed with the oracle checked",
+                rule="seam level: kind {CAS,AC,RAW} x storage mode x size known/unknown x plain/zstd read x backend deviation {none, error, not found, nil reader, size metadata +1/-1/-1/0/over max_proxy_blob_size, one-byte reads, cancelled context, stream error at EVERY byte offset, clean EOF at EVERY byte offset}; 1 deviation quick, pairs (second read deviates too) thorough; then a local-only read with the backend emptied (poisoning) and the quiescence invariants; plus explicit-state BFS over operation sequences with a backend (write-through exactly once, decodable; read-through; faults mixed into sequences); fault class oversize: the object really is larger than max_proxy_blob_size (limit = size-1, size/2): never served, never cached; non-trivial = distinct fault cells completed with the oracle checked",
                 assumptions=["the backend is trusted for content it completely delivers (no bit flips)",
                              "scriptable in-memory cache.Proxy at the seam the real proxies implement; HTTP/gRPC proxy implementations are exercised by the chained-cache part",
                              "objects are 60-150 logical bytes so that every byte offset of the stored form is enumerated"] + E2_ASSUME[:2])
@@ -274,10 +283,10 @@ def check_C14(ctx):
     g = ctx.bin(GRID)
     jobs = []
     for mode in ("zstd", "uncompressed"):
-        for part in ("digests", "names", "http", "writes", "space"):
+        for part in ("digests", "names", "http", "writes", "space", "aborts"):
             jobs.append(Job(g, "TestC14", name="C14:%s/%s" % (part, mode), timeout=2400, env={"VERIF_PARAM_MODE": mode, "VERIF_PARAM_PART": part, "GOMAXPROCS": "4"}))
     return dict(level="exploration", jobs=jobs,
-                rule="small-scope structural enumeration through the real handlers: 12 digest shapes (nil, empty, present, absent, empty blob, negative / huge size, four malformed hashes, zero size with a hash) at every digest position of every gRPC request type (pairs for SpliceBlob), FetchBlob uri x qualifier shapes, stored blobs (9 Directory, 5 Tree, 4 ActionResult shapes incl. nil digests and garbage) read back through GetTree / GetActionResult / HTTP; all token sequences up to length 4 (5 thorough) over 14 resource-name tokens for ByteStream.Read (x offsets, limits), Write and QueryWriteStatus; 21 URL paths x 9 HTTP methods; PUT header products (size header x encoding x content type x content length); all ByteStream.Write message sequences up to length 3 over 9 message kinds with a client abort after every prefix; uploads refused for lack of space through every write path (larger than max_size / space held by other requests' reservations / SpliceBlob whose chunks fit but whose result does not) x hard limit on/off with the leak oracle after every cell; non-trivial = distinct cells that completed",
+                rule="small-scope structural enumeration through the real handlers: 12 digest shapes (nil, empty, present, absent, empty blob, negative / huge size, four malformed hashes, zero size with a hash) at every digest position of every gRPC request type (pairs for SpliceBlob), FetchBlob uri x qualifier shapes, stored blobs (9 Directory, 5 Tree, 4 ActionResult shapes incl. nil digests and garbage) read back through GetTree / GetActionResult / HTTP; all token sequences up to length 4 (5 thorough) over 14 resource-name tokens for ByteStream.Read (x offsets, limits), Write and QueryWriteStatus; 21 URL paths x 9 HTTP methods; PUT header products (size header x encoding x content type x content length); all ByteStream.Write message sequences up to length 3 over 9 message kinds with a client abort after every prefix; uploads refused for lack of space through every write path (larger than max_size / space held by other requests' reservations / SpliceBlob whose chunks fit but whose result does not) x hard limit on/off with the leak oracle after every cell; downloads the client abandons (ByteStream.Read identity/zstd at offsets 0 and 1, HTTP GET plain/zstd over a real connection; one-chunk and multi-chunk blobs; before / after the first piece) with the garbage collector off, so a file closed only by its finalizer counts as left behind; non-trivial = distinct cells that completed",
                 assumptions=["bounded-exhaustive over message shapes and token sequences (small-scope hypothesis), not byte-level fuzzing",
                              "gRPC handler panics are caught by the harness's interceptor and reported (the real server has no recovery: a panic there terminates the process)",
                              "leaks: goroutines inside repository request code, reserved bytes, directory==index and open descriptors are compared with the baseline every 64 cells and at the end; waits are by state with a 20 s cap"])
@@ -287,7 +296,7 @@ def check_C15(ctx):
     th = ctx.thorough()
     g = ctx.bin(GRID)
     jobs = [Job(g, "TestC15", name="C15:instances/" + mode, timeout=1200, env={"VERIF_PARAM_MODE": mode, "GOMAXPROCS": "4"}) for mode in ("zstd", "uncompressed")]
-    jobs += e2cache_jobs(ctx, "C15", 4 if th else 3, 1500 if th else 100, 8 if th else 2, proxies=("0",))
+    jobs += e2cache_jobs(ctx, "C15", 4 if th else 3, 1500 if th else 300, 8 if th else 2, proxies=("0",))
     return dict(level="model_checking", jobs=jobs,
                 rule="explicit-state BFS over operation sequences on a real disk cache in which the CAS, AC and RAW key spaces collide on ONE hash (uploads good and failing, overwrites, evictions, lookups, zstd reads), compared with three independent reference maps on every transition; plus the full product of 12 instance names (empty, nested, containing ac/cas/blobs/uploads segments, unicode, spaces, case, trailing slash) x store via gRPC or HTTP x read via gRPC or HTTP under every instance name x mangling on/off x HTTP validation on/off; server level: every HTTP action-cache lookup repeated by a client that accepts zstd (must answer identically, never compressed); one hash stored as CAS blob, validated and raw action result in six orders",
                 assumptions=E2_ASSUME + ["instance names without leading/trailing slash (REAPI-conformant); an HTTP path with an empty segment is redirected by net/http before it reaches the handler"])
@@ -313,7 +322,7 @@ def check_C18(ctx):
             jobs.append(Job(g, "TestC18", name="C18:write/%s#%d" % (mode, sh), timeout=3600, env={"VERIF_PARAM_MODE": mode, "GOMAXPROCS": "4", "VERIF_SHARD": "%d/%d" % (sh, shards)}))
         jobs.append(Job(g, "TestC18Proxy", name="C18:proxy/" + mode, timeout=3600, env={"VERIF_PARAM_MODE": mode, "GOMAXPROCS": "4"}))
     return dict(level="exploration", jobs=jobs,
-                rule="max_blob_size L in {1, 4 KiB, 1 MiB} (thorough: 11 limits incl. 2, 100, 4 KiB+-1, 64 KiB, 1 MiB+-1, 2 MiB+1) x item size {L-1, L, L+1, 4L} (thorough: 1, L/2, L-1, L, L+1, L+2, 2L, 4L+1) x 13 write paths x {incompressible, highly compressible} content (so that the transport size differs from the logical size) x storage mode; max_proxy_blob_size P in {100, 4096} x backend object {P-1, P, P+1} x {Get size known/unknown, GetZstd, Contains known/unknown, FindMissingBlobs, AC dependency check}; GetCapabilities; non-trivial = distinct cells on both sides of each limit",
+                rule="max_blob_size L in {1, 4 KiB, 1 MiB} (thorough: 11 limits incl. 2, 100, 4 KiB+-1, 64 KiB, 1 MiB+-1, 2 MiB+1) x item size {L-1, L, L+1, 4L} (thorough: 1, L/2, L-1, L, L+1, L+2, 2L, 4L+1) x 13 write paths x {incompressible, highly compressible} content (so that the transport size differs from the logical size) x storage mode; max_proxy_blob_size P in {100, 4096} x backend object {P-1, P, P+1} x {Get size known/unknown, GetZstd, Contains known/unknown, FindMissingBlobs, AC dependency check}; GetCapabilities; the action-cache entry itself as the item (serialised ActionResult of L-1, L, L+1, 4L bytes via gRPC and HTTP); a refused ac_* upload must not leave its ActionResult behind; non-trivial = distinct cells on both sides of each limit",
                 assumptions=["in-process servers; the disk cache and both front ends are configured with the same limit, as main() does"])
 
 
@@ -327,7 +336,7 @@ def check_C20(ctx):
     jobs.append(Job(ctx.bin("./cache/s3proxy"), "TestVfC20Names", name="C20:names/s3", timeout=300))
     jobs.append(Job(ctx.bin("./cache/azblobproxy"), "TestVfC20Names", name="C20:names/azblob", timeout=300))
     return dict(level="exploration", jobs=jobs,
-                rule="(a) files laid out by the harness's independent implementation of the published v2 format: chunk size {4 KiB, 64 KiB, 1 MiB, 3 MiB} x blob sizes around each x encoder {klauspost fastest/default/best, libzstd 1/19} x content kind x suffix shape, identity-compression v2 files, raw .v1 files, AC files with arbitrary suffixes; served by this build in every (storage mode, zstd implementation) through all read paths at boundary offsets; (b) every file this build writes in every configuration (8 sizes x 3 content kinds x 6 write paths) parsed by the independent reader with both zstd decoders and as a plain zstd stream, file names checked against the published naming; (c) a golden directory and name tables produced by the pinned release: read back in all four configurations, file / HTTP URL / gRPC resource / S3 / Azure object names compared tuple by tuple and checked for injectivity",
+                rule="(a) files laid out by the harness's independent implementation of the published v2 format: chunk size {4 KiB, 64 KiB, 1 MiB, 3 MiB} x blob sizes around each x encoder {klauspost fastest/default/best, libzstd 1/19} x content kind x suffix shape, identity-compression v2 files, raw .v1 files, AC files with arbitrary suffixes; served by this build in every (storage mode, zstd implementation) through all read paths at boundary offsets; (b) every file this build writes in every configuration (8 sizes x 3 content kinds x 6 write paths) parsed by the independent reader with both zstd decoders and as a plain zstd stream, file names checked against the published naming; (c) a golden directory and name tables produced by the pinned release: read back in all four configurations, file / HTTP URL / gRPC resource / S3 / Azure object names compared tuple by tuple and checked for injectivity; chunk encoders: klauspost one-shot fastest/default/best, libzstd levels 1 and 19, and three STREAMING encoders (frames that declare a window: default, 32 MiB window + checksum, best + 1 KiB window)",
                 assumptions=["golden files were produced once by the pinned commit (plus the hook commit) with VERIF_REPO pointing at a worktree of it; they are committed under /verif/golden",
                              "the independent reader/writer (go/vlib/fmt2.go) is written from the format description in casblob.go's header comment and README"])
 
@@ -343,7 +352,7 @@ def check_C19(ctx):
 
 def check_C17(ctx):
     th = ctx.thorough()
-    jobs = e2lru_jobs(ctx, "C17", 6 if th else 4, 1500 if th else 100, hard_extras=(-1, 0, 1, 2))
+    jobs = e2lru_jobs(ctx, "C17", 6 if th else 4, 1500 if th else 300, hard_extras=(-1, 0, 1, 2))
     scen = ["S17-hardlimit-unset", "S17-hardlimit-max", "S17-hardlimit-max+1blk", "S17-hardlimit-max+2blk"] if th else ["S17-hardlimit-unset", "S17-hardlimit-max", "S17-hardlimit-max+1blk"]
     jobs += e1_jobs(ctx, "C17", scen, 3 if th else 2, 8 if th else 6, 1500 if th else 400)
     jobs.append(Job(ctx.bin(GRID), "TestC17", name="C17:status-mapping", timeout=600))
@@ -355,7 +364,7 @@ def check_C17(ctx):
 def check_C08(ctx):
     th = ctx.thorough()
     b = ctx.bin(DISK)
-    budget = 2400 if th else 150
+    budget = 2400 if th else 300
     jobs = []
     for h in C08_HISTORIES:
         for mode in ("zstd", "uncompressed"):
@@ -385,6 +394,9 @@ def check_C09(ctx):
                              "duplicates are checked with a max_size that needs no eviction"])
 
 
+C13_EXTRAS = ["none", "idle_timeout", "metrics_prefix", "instance_mangling", "no_deps_check", "uncompressed", "max_blob_size", "http_timeouts", "no_ac_validation", "hard_limit"]
+
+
 def check_C13(ctx):
     b = ctx.bin(".")
     jobs = []
@@ -395,10 +407,13 @@ def check_C13(ctx):
     for a, u in cfgs:
         for m in ("0", "1"):
             for asset in (("1", "0") if (ctx.thorough() or (a, u, m) == ("htpasswd", "0", "0")) else ("1",)):
-                jobs.append(Job(b, "TestVfC13", name="C13:%s/unauth%s/metrics%s/asset%s" % (a, u, m, asset), timeout=300,
-                                env={"VERIF_PARAM_AUTH": a, "VERIF_PARAM_UNAUTHREADS": u, "VERIF_PARAM_METRICS": m, "VERIF_PARAM_ASSET": asset}))
+                for extra in C13_EXTRAS:
+                    if extra != "none" and asset == "0" and not ctx.thorough():
+                        continue
+                    jobs.append(Job(b, "TestVfC13", name="C13:%s/unauth%s/metrics%s/asset%s/%s" % (a, u, m, asset, extra), timeout=600,
+                                    env={"VERIF_PARAM_AUTH": a, "VERIF_PARAM_UNAUTHREADS": u, "VERIF_PARAM_METRICS": m, "VERIF_PARAM_ASSET": asset, "VERIF_PARAM_EXTRA": extra, "GOMAXPROCS": "2"}))
     return dict(level="exploration", jobs=jobs,
-                rule="full product {no auth, htpasswd, mTLS} x allow_unauthenticated_reads x endpoint metrics x 7 HTTP methods x 6 endpoints x every gRPC method of every protobuf service linked into the binary that the server has registered x credential state; against the real run() of package main on unix sockets; non-trivial = distinct (config, method, endpoint, credential) cells where authentication was enabled and the expected decision was observed",
+                rule="full product {no auth, htpasswd, mTLS} x allow_unauthenticated_reads x endpoint metrics x one further option of {none, idle_timeout, http_metrics_prefix, instance mangling, no deps check, uncompressed storage, max_blob_size, HTTP timeouts, HTTP AC validation off, hard limit} x 7 HTTP methods x 6 endpoints x every gRPC method of every protobuf service linked into the binary that the server has registered x credential state; against the real run() of package main on unix sockets; non-trivial = distinct (config, method, endpoint, credential) cells where authentication was enabled and the expected decision was observed",
                 assumptions=["one server process per configuration, started through main's run() with command-line flags; certificates generated with crypto/x509; htpasswd entry {SHA}",
                              "gRPC requests are empty messages: a method counts as registered when a fully authorised client does not get Unimplemented",
                              "a method unknown to the harness's read-only list is treated as mutating"])
